@@ -24,12 +24,31 @@ pub fn run_c14(ctx: &Ctx) -> i32 {
     let mut scripts = 0u64;
     let mut steps = 0u64;
     let mut per = vec![];
-    let backends = [HB::Mem, HB::Phys, HB::AltMem, HB::OvUpper, HB::OvLower, HB::Embedded];
+    let backends = [
+        HB::Mem,
+        HB::Phys,
+        HB::AltMem,
+        HB::OvUpper,
+        HB::OvLower,
+        HB::Embedded,
+    ];
     for b in backends {
-        let depth = if (thorough && !b.is_phys()) || b == HB::Mem { 5 } else { 4 };
+        let depth = if (thorough && !b.is_phys()) || b == HB::Mem {
+            5
+        } else {
+            4
+        };
         for c in CONTENTS {
             let (st, v) = reader_scripts("C14", b, c, depth, &open_reader);
-            println!("  [reader {} content {:?} depth {}] scripts={} steps={} violations={}", b.label(), String::from_utf8_lossy(c), depth, st.scripts, st.steps, v.len());
+            println!(
+                "  [reader {} content {:?} depth {}] scripts={} steps={} violations={}",
+                b.label(),
+                String::from_utf8_lossy(c),
+                depth,
+                st.scripts,
+                st.steps,
+                v.len()
+            );
             scripts += st.scripts;
             steps += st.steps;
             merge(&mut classes, &st.classes, "reader:");
@@ -39,17 +58,40 @@ pub fn run_c14(ctx: &Ctx) -> i32 {
     }
     let wbackends = [HB::Mem, HB::Phys, HB::AltMem, HB::OvUpper, HB::OvLower];
     for b in wbackends {
-        let depth = if thorough && !b.is_phys() { 5 } else if b.is_phys() { 3 } else { 4 };
+        let depth = if thorough && !b.is_phys() {
+            5
+        } else if b.is_phys() {
+            3
+        } else {
+            4
+        };
         for prior in [None, Some(&b""[..]), Some(&b"abc"[..])] {
             for append in [false, true] {
                 if b == HB::OvLower && prior.is_none() {
                     continue;
                 }
                 let (st, v) = writer_scripts("C14", b, prior, append, depth);
-                println!("  [writer {} prior {:?} append={} depth {}] scripts={} steps={} violations={}", b.label(), prior.map(String::from_utf8_lossy), append, depth, st.scripts, st.steps, v.len());
+                println!(
+                    "  [writer {} prior {:?} append={} depth {}] scripts={} steps={} violations={}",
+                    b.label(),
+                    prior.map(String::from_utf8_lossy),
+                    append,
+                    depth,
+                    st.scripts,
+                    st.steps,
+                    v.len()
+                );
                 scripts += st.scripts;
                 steps += st.steps;
-                merge(&mut classes, &st.classes, if append { "append-writer:" } else { "create-writer:" });
+                merge(
+                    &mut classes,
+                    &st.classes,
+                    if append {
+                        "append-writer:"
+                    } else {
+                        "create-writer:"
+                    },
+                );
                 per.push(json!({"kind": "writer", "backend": b.label(), "append": append, "prior": prior.map(|p| p.len()), "depth": depth, "scripts": st.scripts, "steps": st.steps}));
                 vio.extend(v);
             }
@@ -82,9 +124,23 @@ pub fn run_c04(ctx: &Ctx) -> i32 {
     let mut steps = 0u64;
     let mut per = vec![];
     // (a) session scripts
-    let wbackends = [HB::Mem, HB::Phys, HB::AltMem, HB::AltPhys, HB::OvUpper, HB::OvLower, HB::OvPhysLower];
+    let wbackends = [
+        HB::Mem,
+        HB::Phys,
+        HB::AltMem,
+        HB::AltPhys,
+        HB::OvUpper,
+        HB::OvLower,
+        HB::OvPhysLower,
+    ];
     for b in wbackends {
-        let depth = if b.is_phys() { 3 } else if thorough { 5 } else { 4 };
+        let depth = if b.is_phys() {
+            3
+        } else if thorough {
+            5
+        } else {
+            4
+        };
         for prior in [None, Some(&b""[..]), Some(&b"abc"[..])] {
             for append in [false, true] {
                 if matches!(b, HB::OvLower | HB::OvPhysLower) && prior.is_none() {
@@ -94,7 +150,11 @@ pub fn run_c04(ctx: &Ctx) -> i32 {
                 println!("  [session {} prior {:?} append={} depth {}] scripts={} steps={} violations={}", b.label(), prior.map(String::from_utf8_lossy), append, depth, st.scripts, st.steps, v.len());
                 scripts += st.scripts;
                 steps += st.steps;
-                merge(&mut classes, &st.classes, if append { "append:" } else { "create:" });
+                merge(
+                    &mut classes,
+                    &st.classes,
+                    if append { "append:" } else { "create:" },
+                );
                 per.push(json!({"kind": "session-script", "backend": b.label(), "append": append, "prior": prior.map(|p| p.len()), "depth": depth, "scripts": st.scripts}));
                 vio.extend(v);
             }
@@ -104,22 +164,73 @@ pub fn run_c04(ctx: &Ctx) -> i32 {
     let mut spaces = vec![];
     let two = Universe::new("U{a,b}", &["/a", "/b"]);
     let w: Vec<&[u8]> = vec![b"", b"x", b"\xff\x00"];
-    for cfg in [Cfg::Mem, Cfg::Phys, Cfg::alt(Cfg::Mem, "/Z"), Cfg::alt(Cfg::Phys, "/Z")] {
-        spaces.push(TreeSpace::new("C04", cfg, Order::Asc, alphabet(two.clone(), &w, 3, true), Domain::Typed, empty_init(true), Monitors { model: true, ..Default::default() }));
+    for cfg in [
+        Cfg::Mem,
+        Cfg::Phys,
+        Cfg::alt(Cfg::Mem, "/Z"),
+        Cfg::alt(Cfg::Phys, "/Z"),
+    ] {
+        spaces.push(TreeSpace::new(
+            "C04",
+            cfg,
+            Order::Asc,
+            alphabet(two.clone(), &w, 3, true),
+            Domain::Typed,
+            empty_init(true),
+            Monitors {
+                model: true,
+                ..Default::default()
+            },
+        ));
     }
-    for cfg in [Cfg::Ov(vec![Cfg::Mem, Cfg::Mem]), Cfg::Ov(vec![Cfg::Phys, Cfg::Phys])] {
+    for cfg in [
+        Cfg::Ov(vec![Cfg::Mem, Cfg::Mem]),
+        Cfg::Ov(vec![Cfg::Phys, Cfg::Phys]),
+    ] {
         let inits = layerings(&[0, 1], &two.paths, false);
-        spaces.push(TreeSpace::new("C04", cfg, Order::Asc, alphabet(two.clone(), &[b"x"], 3, true), Domain::Typed, inits, Monitors { model: true, ..Default::default() }));
+        spaces.push(TreeSpace::new(
+            "C04",
+            cfg,
+            Order::Asc,
+            alphabet(two.clone(), &[b"x"], 3, true),
+            Domain::Typed,
+            inits,
+            Monitors {
+                model: true,
+                ..Default::default()
+            },
+        ));
     }
     let lim = limits(ctx);
     let (stats, v2) = run_spaces(ctx, spaces, &lim);
     vio.extend(v2);
     // (c) boundary lengths x buffer sizes, through copy / move / copy-up
-    let lens: Vec<usize> = if thorough { vec![0, 1, 2, 3, 8191, 8192, 8193, 16384, 65536, 65537] } else { vec![0, 1, 3, 8191, 8192, 8193, 65537] };
-    let bufs: Vec<usize> = if thorough { vec![1, 2, 3, 7, 4096, 8192, 8193, 70000] } else { vec![1, 7, 8192, 8193, 70000] };
-    let lb = [HB::Mem, HB::Phys, HB::AltMem, HB::AltPhys, HB::OvUpper, HB::OvLower, HB::OvPhysLower];
+    let lens: Vec<usize> = if thorough {
+        vec![0, 1, 2, 3, 8191, 8192, 8193, 16384, 65536, 65537]
+    } else {
+        vec![0, 1, 3, 8191, 8192, 8193, 65537]
+    };
+    let bufs: Vec<usize> = if thorough {
+        vec![1, 2, 3, 7, 4096, 8192, 8193, 70000]
+    } else {
+        vec![1, 7, 8192, 8193, 70000]
+    };
+    let lb = [
+        HB::Mem,
+        HB::Phys,
+        HB::AltMem,
+        HB::AltPhys,
+        HB::OvUpper,
+        HB::OvLower,
+        HB::OvPhysLower,
+    ];
     let (cases, evals, v3) = lengths_and_buffers("C04", &lb, &lens, &bufs);
-    println!("  [lengths x buffers] cases={} reads={} violations={}", cases, evals, v3.len());
+    println!(
+        "  [lengths x buffers] cases={} reads={} violations={}",
+        cases,
+        evals,
+        v3.len()
+    );
     vio.extend(v3);
     let bfs_states: u64 = stats.iter().map(|s| s.states).sum();
     let bfs_trans: u64 = stats.iter().map(|s| s.transitions).sum();
@@ -146,5 +257,15 @@ pub fn run_c04(ctx: &Ctx) -> i32 {
         "lengths_x_buffers": {"cases": cases, "reads": evals},
         "classes": classes,
     });
-    finish_counts(ctx, &info, cov, &["byte values from a fixed non-UTF-8 pattern; lengths up to 64 KiB + 1", "seeking on append handles is compared on memory based stacks only"], &vio, &counts)
+    finish_counts(
+        ctx,
+        &info,
+        cov,
+        &[
+            "byte values from a fixed non-UTF-8 pattern; lengths up to 64 KiB + 1",
+            "seeking on append handles is compared on memory based stacks only",
+        ],
+        &vio,
+        &counts,
+    )
 }
